@@ -821,8 +821,10 @@ pub fn process_line(v: &Value, want: &Want, rep: &mut Report) {
     for s in &specs {
         crosscheck(s, rep);
     }
-    rep.sample(json!({"history": h, "spec_slot1": {"n": specs[0].n, "data": specs[0].data,
+    if rep.nontrivial.contains(&hs) {
+        rep.sample(json!({"history": h, "spec_slot1": {"n": specs[0].n, "data": specs[0].data,
         "mean": format!("{:?}", specs[0].mean), "pvar": format!("{:?}", specs[0].pvar)}}));
+    }
     run_type::<average::Mean>(h, &ops, &specs, &cxs, want, rep);
     run_type::<average::Variance>(h, &ops, &specs, &cxs, want, rep);
     run_type::<average::Skewness>(h, &ops, &specs, &cxs, want, rep);
